@@ -97,7 +97,7 @@ func registerMore() {
 		Explanation: "Handler errors are built from every constructor (Error with any int32 code / symbolic message / optional data token, Code.Err, Errorf, value- and pointer-receiver ErrCoder types, context sentinels, plain errors), multi-error nodes (errors.Join, two %w operands), an ErrCoder wrapping an *Error of another code, wrapped 0..2 (thorough 0..7) times with %w, and pushed through the real tasks.responses, jmessages.toJSON, parseJSON, Client.deliverLocked, Response.wait and filterError; " +
 			"the solver decides the code equalities over the full int32 range. A second harness decides ErrorCode(c.Err()) == c for every int32 c and that WithData leaves its receiver unchanged (code, message and the bytes of existing data, which sit in a buffer with spare capacity and are compared against a private copy) for nil / marshalable / unmarshalable data.",
 		Bounds:      []string{"wrap depth <= 2 (thorough <= 7)", "message length <= 2 bytes (thorough <= 8), every byte symbolic", "all int32 codes (bit-vector)"},
-		Outside:     []string{"an ErrCoder reporting NoError for a non-nil error (excluded by assumption; the property exempts NoError)", "an *Error whose Data is not valid JSON (Data is documented as JSON; the library then fails to encode the reply)", "json.Marshal of arbitrary handler results (contract stub)"},
+		Outside:     []string{"an ErrCoder reporting NoError for a non-nil error (excluded by assumption; the property exempts NoError)", "json.Marshal of arbitrary handler results (contract stub)"},
 		Assumptions: append([]string{jsonAssumption, "errors.Is/As re-implemented in the engine following package errors (Is/As/Unwrap methods are the interpreted ones); fmt.Errorf keeps the %w operand reachable through Unwrap"}, commonAssumptions...),
 		Harnesses: []HarnessSpec{
 			{Dir: "jrpc2", Name: "Harness_C14_chain", Reach: []string{"delivered", "canceled-sentinel", "deadline-sentinel"}},
@@ -254,7 +254,7 @@ func registerMore2() {
 	})
 	addProp(&PropSpec{
 		ID: "C01",
-		Explanation: "One inbound message of 1..2 (thorough 1..3) valid requests, each symbolically a call (arbitrary distinct id) or a notification, is run through the real dispatchLocked closure (handler goroutines as engine threads) with symbolic handler outcomes: any result token, *Error with any int32 code, wrapped coded error, context error, unmarshalable result - also for notifications. " +
+		Explanation: "One inbound message of 1..2 (thorough 1..3) valid requests, each symbolically a call (arbitrary distinct id) or a notification, is run through the real dispatchLocked closure (handler goroutines as engine threads) with symbolic handler outcomes: any result token, *Error with any int32 code and optional data of any kind (valid JSON or not), wrapped coded error, context error, unmarshalable result (a function value, or a json.RawMessage that is not JSON) - also for notifications. " +
 			"The single outbound message is parsed back: one response per call, in request order, with that call's id and that handler's outcome; array iff the inbound was an array; nothing for notifications whatever their handlers return; sent after every handler exit (logical clock). C02's harness covers invalid members, C03's the started server, C09's filter step the hand-over of requests by a push-enabled server's reader.",
 		Bounds:      []string{"batch <= 3 members (quick: three-member batches only mix successful and unknown-method members; thorough: every outcome)", "Concurrency in {1,2}", "delay bound 2 (thorough 3)", "ids of one batch pairwise different"},
 		Outside:     []string{"several inbound messages in flight at once (C03 harness checks per-request run counts there)", "batches larger than the bound"},
@@ -293,7 +293,7 @@ func registerMore2() {
 		Explanation: "Every threaded and step harness hands the library an instrumented channel.Channel that asserts, inside each call and on every explored schedule: at most one Send in progress, at most one Recv in progress, no Send/Close overlap, Close exactly once per Start/NewClient, Send and Close only while the owner's mutex is held by the calling thread (the engine's mutex intrinsic knows the holder), " +
 			"and that every record passed to Send parses as one JSON object or a non-empty array of objects. C10's check runs the started-server harnesses (C03, C08, and C02's envelope harness with records that are no request, padded records and undeliverable notifications), the push and client step harnesses (C09, C04) and a real NewClient with callback/notification handlers racing with Call/Notify/Close.",
 		Bounds:      []string{"the workloads of the listed harnesses", "delay bound 2; context switches at blocking operations"},
-		Outside:     []string{"workloads outside those harnesses; preemption inside a critical section is excluded by the lock-held assertion itself", "a handler or OnCallback handler returning an *Error whose Data is not valid JSON (documented as JSON): the library then cannot encode its reply"},
+		Outside:     []string{"workloads outside those harnesses; preemption inside a critical section is excluded by the lock-held assertion itself"},
 		Assumptions: append([]string{jsonAssumption, threadAssumption}, commonAssumptions...),
 		Harnesses: []HarnessSpec{
 			{Dir: "jrpc2", Name: "Harness_C10_client", Reach: []string{"closed"}, Tweak: sched(2, 2, 1)},
